@@ -24,6 +24,11 @@ CHECKS = {
         "real-arithmetic lemmas; labels: get_contrast_level == LEVEL for EVERY double in z3's FP theory, get_wcag_level, is_readable strings by engine A. Float rounding is closed numerically by engine D: 256-value table, all "
         "2^24 luminances (thorough; quick bounded), 65,536 grey pairs, every colour vs black/white.",
    note=TB + "engine B is over the reals (pow uninterpreted); float gap closed by exhaustive evaluation only on the finite domains listed; random pairs of the 2^48 are bounded (engine E).", ref='§8 C05'),
+ 'C10': dict(cat='proof', tech='formula conformance + range lemmas by ring-normal-form proof over the real AST (engine B), contract-based deductive verification of the inverse and safe variants (engine A), exhaustive round trip (engine D)',
+   text="forward conversion == Ottosson's definition for every real channel triple in [0,255] with L in [0,1], C >= 0, H in [0,360) on every path (B); inverse returns a valid 8-bit colour for EVERY real triple, achromatic corner "
+        "cases and exact greys over the reals, safe variants equal plain on valid input and return valid values on every numeric triple (A, z3); all 2^24 colours: definition within 1e-12, float ranges, lossless round trip "
+        "(D; thorough complete, quick bounded). Inverse on a grid/random triples vs the clipped definition is bounded (E).",
+   note=TB + "reals for B/A (pow/sqrt/atan2/sin/cos uninterpreted with listed identities); reading N1 for 'L=0 black' (achromatic corner only).", ref='§8 C10'),
  'C11': dict(cat='other', tech='formula conformance and symmetry by ring-normal-form proof over the real AST (engine B) + exhaustive Lab numerics (engine D) + bounded pair checks incl. the 34 Sharma pairs (engine E)',
    text="CIEDE2000: every constant/branch of the real routine equals the Sharma-Wu-Dalal formulation, symmetry, zero for identical colours, non-negativity proved over the reals; Lab pipeline proved against CIE with the library's "
         "4-digit epsilon/kappa as declared tolerance class; Lab of all 2^24 colours within 0.05 (thorough: complete). Numeric agreement of the difference on pairs, finiteness and 'never raises' are bounded (engine E).",
@@ -56,7 +61,7 @@ man = {
            'source_commits': [], 'add_only': True},
  'engines': [
    {'name': 'A pyvc', 'path': 'vf/symex.py', 'serves_properties': ['C01', 'C02', 'C04', 'C16'], 'kind_free_text': 'AST -> verification conditions, modular contracts, z3/cvc5'},
-   {'name': 'B ringconf', 'path': 'vf/ring.py', 'serves_properties': ['C05', 'C11'], 'kind_free_text': 'code == published formula as commutative-ring normal forms over uninterpreted atoms; path matching in z3 QF_LIRA'},
+   {'name': 'B ringconf', 'path': 'vf/ring.py', 'serves_properties': ['C05', 'C10', 'C11'], 'kind_free_text': 'code == published formula as commutative-ring normal forms over uninterpreted atoms; path matching in z3 QF_LIRA'},
    {'name': 'D fdx', 'path': 'vf/fdx.py', 'serves_properties': ['C01', 'C05', 'C06', 'C11'], 'kind_free_text': 'exhaustive evaluation of the real functions on finite colour domains (16 processes)'},
    {'name': 'E rtc', 'path': 'vf/rtc.py', 'serves_properties': ['C01', 'C02', 'C04', 'C06', 'C16'], 'kind_free_text': 'bounded run-time contracts on the real functions with independent oracles (never counted as proved)'},
  ],
